@@ -54,6 +54,13 @@ FINITE_ENZYME = {"species": ["E", "S", "ES", "P"], "reactions": [
     "params": {"kf": 1.0, "kr": 0.5, "kcat": 1.0}, "ic": {"E": 1, "S": 3, "ES": 0, "P": 0}}
 
 
+# 2A + B <-> C with the reactants of the forward reaction written in the order A, B, A
+FINITE_INTERLEAVED = {"species": ["A", "B", "C"], "reactions": [
+    {"reactants": ["A", "B", "A"], "products": ["C"], "prop": {"type": "massaction", "k": "k0"}},
+    {"reactants": ["C"], "products": ["A", "B", "A"], "prop": {"type": "massaction", "k": "k1"}}],
+    "params": {"k0": 0.2, "k1": 0.5}, "ic": {"A": 5, "B": 4, "C": 0}}
+
+
 def corr_network(ctx, spec, T, seeds, safe=False):
     ctx.begin_case({"spec": spec, "grid": [float(t) for t in T], "seeds": seeds, "safe": safe})
     M = build_model(spec)
@@ -84,7 +91,7 @@ def corr_network(ctx, spec, T, seeds, safe=False):
     ctx.sample({"spec": spec, "grid_points": len(T), "seeds": seeds[:3], "row_changes": nev}, cap=4)
 
 
-def cme_test(ctx, spec, times, nruns, seed0, offset=False, sim_kind="ssa", strided=False):
+def cme_test(ctx, spec, times, nruns, seed0, offset=False, sim_kind="ssa", strided=False, spec_rates=False):
     """G-test of N seeded runs against p0*expm(Q t) at each time and jointly at the first two."""
     from bioscrape.simulator import ModelCSimInterface, SafeModelCSimInterface, SSASimulator, VolumeSSASimulator
     from bioscrape.types import Volume
@@ -94,7 +101,17 @@ def cme_test(ctx, spec, times, nruns, seed0, offset=False, sim_kind="ssa", strid
     I = ModelCSimInterface(M)
     S = np.array(M.py_get_update_array()) + np.array(M.py_get_delay_update_array())
     x0 = np.array(M.get_species_array(), dtype=float)
-    states, Q = cme.reachable(x0, S, lambda x: I.py_verif_compute_propensities(x, "stoch", 1.0, 0.0))
+    if spec_rates:
+        # the generator is written down from the reaction definitions (closed forms), not read from the implementation
+        from fractions import Fraction
+        from props.C01 import closed_form
+        from modelspec import spec_matrices
+        sl_ = M.get_species_list()
+        S = sum(spec_matrices(spec, sl_)).astype(float)
+        rate_fn = lambda x: np.array([float(closed_form(r_["prop"], r_["reactants"], {s_: Fraction(int(v_)) for s_, v_ in zip(sl_, x)}, spec["params"], 1)["stoch"]) for r_ in spec["reactions"]])
+    else:
+        rate_fn = lambda x: I.py_verif_compute_propensities(x, "stoch", 1.0, 0.0)
+    states, Q = cme.reachable(x0, S, rate_fn)
     # offset: the grid starts after the initial time 0 - its first row is then a state reached by the events in (0, T0]
     T = np.array(list(times)) if offset else np.array([0.0] + list(times))
     I.py_set_dt(float(T[1] - T[0]))
@@ -173,6 +190,8 @@ def run(ctx):
     cme_test(ctx, FINITE_DELAYED, [0.3, 1.0, 2.5], nruns, 1000 * ctx.seed + 444, sim_kind="volume", strided=True)
     cme_test(ctx, FINITE_ENZYME, [0.5, 2.0, 4.0], nruns, 1000 * ctx.seed + 888, sim_kind="safessa")
     cme_test(ctx, FINITE_ENZYME, [0.5, 2.0, 4.0], nruns, 1000 * ctx.seed + 999, sim_kind="safevolume")
+    cme_test(ctx, FINITE_INTERLEAVED, [0.3, 1.0, 2.5], nruns, 1000 * ctx.seed + 1111, spec_rates=True)
+    cme_test(ctx, FINITE_INTERLEAVED, [0.3, 1.0, 2.5], nruns, 1000 * ctx.seed + 1212, sim_kind="volume", spec_rates=True)
 
 
 def replay(ctx, obj):
